@@ -87,6 +87,24 @@ class DCField:
     owner: str
 
 
+def _fold_local(node: ast.AST, env: Dict[str, Any]) -> Any:
+    """Constant evaluation of a small arithmetic expression over named constants."""
+    if isinstance(node, ast.Constant):
+        return node.value
+    if isinstance(node, ast.Name) and node.id in env:
+        return env[node.id]
+    if isinstance(node, ast.UnaryOp) and isinstance(node.op, ast.USub):
+        return -_fold_local(node.operand, env)
+    if isinstance(node, ast.BinOp):
+        a, b = _fold_local(node.left, env), _fold_local(node.right, env)
+        ops = {ast.Add: lambda x, y: x + y, ast.Sub: lambda x, y: x - y, ast.Mult: lambda x, y: x * y, ast.LShift: lambda x, y: x << y,
+               ast.RShift: lambda x, y: x >> y, ast.BitOr: lambda x, y: x | y, ast.BitAnd: lambda x, y: x & y, ast.FloorDiv: lambda x, y: x // y,
+               ast.Mod: lambda x, y: x % y, ast.Pow: lambda x, y: x ** y}
+        if type(node.op) in ops and isinstance(a, int) and isinstance(b, int) and not (isinstance(node.op, (ast.LShift, ast.Pow)) and b > 64):
+            return ops[type(node.op)](a, b)
+    raise NotConst(f"enum attribute expression {ast.unparse(node)}")
+
+
 @dataclass
 class EnumInfo:
     members: Dict[str, Any]  # name -> folded value (tuple or scalar)
@@ -99,6 +117,11 @@ class EnumInfo:
         v = self.members[member]
         if idx == "whole":
             return v
+        if isinstance(idx, tuple) and idx and idx[0] == "expr":
+            # attribute computed in __new__ from the member's arguments, e.g. `1 << (weekday + 1)`
+            _, node, params = idx
+            vals = v if isinstance(v, tuple) else (v,)
+            return _fold_local(node, dict(zip(params, vals)))
         return v[idx]
 
 
@@ -498,15 +521,18 @@ class Program:
         else:
             params = new.params[1:]
             slot: Dict[str, int] = {}
+            computed: Dict[str, Any] = {}
             for st in ast.walk(new.node):
-                if (
-                    isinstance(st, ast.Assign)
-                    and len(st.targets) == 1
-                    and isinstance(st.targets[0], ast.Attribute)
-                    and isinstance(st.value, ast.Name)
-                    and st.value.id in params
-                ):
-                    slot[st.targets[0].attr] = params.index(st.value.id)
+                if isinstance(st, ast.Assign) and all(isinstance(t, ast.Attribute) for t in st.targets):
+                    if isinstance(st.value, ast.Name) and st.value.id in params:
+                        for t in st.targets:
+                            slot[t.attr] = params.index(st.value.id)
+                    elif isinstance(st.value, (ast.BinOp, ast.UnaryOp, ast.Constant)) and all(
+                            (not isinstance(n, ast.Name)) or n.id in params for n in ast.walk(st.value)) and not any(isinstance(n, (ast.Call, ast.Attribute, ast.Subscript)) for n in ast.walk(st.value)):
+                        for t in st.targets:
+                            computed[t.attr] = ("expr", st.value, tuple(params))
+            for k, v in computed.items():
+                attrs[k] = v
             for k, v in slot.items():
                 attrs[k] = v
             if "_value_" in slot:
